@@ -265,6 +265,9 @@ class RTFEncodingService:
 
                 col_total_width = page_col_width
                 col_widths = Utils._col_widths(rtf_attrs.col_rel_width, col_total_width)
+                # The component is one cell spanning the table: it ends at the
+                # table's right edge, whatever the number of relative widths
+                col_widths = col_widths[-1:]
 
                 # Create DataFrame from text string
                 import polars as pl
@@ -324,6 +327,9 @@ class RTFEncodingService:
 
                 col_total_width = page_col_width
                 col_widths = Utils._col_widths(rtf_attrs.col_rel_width, col_total_width)
+                # The component is one cell spanning the table: it ends at the
+                # table's right edge, whatever the number of relative widths
+                col_widths = col_widths[-1:]
 
                 # Create DataFrame from text string
                 import polars as pl
